@@ -604,3 +604,54 @@ func escapePairs(c *Ctx, rel string, fd *ast.FuncDecl) (pairs map[rune]string, a
 	})
 	return
 }
+
+// R17i: a data reference prints each of its accesses through that access node's own String(): in
+// DataRefNode.String the loop over Access contains no type switch or assertion on the element that prints
+// some kinds by hand (a hand-written copy of a child's format drifts from the child's own — the null-safe
+// '?' of one kind was forgotten that way).
+func ruleR17i(c *Ctx) {
+	p := c.pkg("ast")
+	fd := c.mustFunc("ast", "DataRefNode.String")
+	if p == nil || fd == nil {
+		return
+	}
+	info := p.TypesInfo
+	n := 0
+	ast.Inspect(fd.Body, func(x ast.Node) bool {
+		rs, ok := x.(*ast.RangeStmt)
+		if !ok || rs.Value == nil {
+			return true
+		}
+		if fv := fieldOf(rs.X, info); fv == nil || fv.Name() != "Access" {
+			return true
+		}
+		n++
+		vid, _ := rs.Value.(*ast.Ident)
+		var elem types.Object
+		if vid != nil {
+			elem = info.Defs[vid]
+		}
+		delegates, byHand := false, false
+		ast.Inspect(rs.Body, func(y ast.Node) bool {
+			switch e := y.(type) {
+			case *ast.CallExpr:
+				if se, ok := e.Fun.(*ast.SelectorExpr); ok && se.Sel.Name == "String" && len(e.Args) == 0 {
+					if id, ok := ast.Unparen(se.X).(*ast.Ident); ok && info.Uses[id] == elem {
+						delegates = true
+					}
+				}
+			case *ast.TypeSwitchStmt:
+				byHand = true
+			case *ast.TypeAssertExpr:
+				if id, ok := ast.Unparen(e.X).(*ast.Ident); ok && info.Uses[id] == elem {
+					byHand = true
+				}
+			}
+			return true
+		})
+		c.check(delegates && !byHand, "R17i", "ast.DataRefNode.String prints-accesses-through-their-own-String", rs.Pos(),
+			"every access is printed by its own String()", "the reference prints some kinds of access by hand instead of through the access node's own String(): the two formats can differ (a forgotten '?'), and the printed reference parses back to a different one")
+		return true
+	})
+	c.floor("R17i", "loops over the accesses in DataRefNode.String", 1, n)
+}
